@@ -1,4 +1,5 @@
 #include "clienv.h"
+#include "driver.h"
 #include <cstdlib>
 
 CliEnv::CliEnv(const Plan &p) : clockrng(p.seed, 4242, p.run) {
@@ -69,4 +70,20 @@ CliResult CliEnv::run(const Plan &p, const Bytes &arch) {
 	g_sim.fds.clear();
 	g_sim.streams.clear();
 	return r;
+}
+
+bool archive_declares_huge(const Bytes &arch, int64_t trunc) {
+	Task t;
+	t.kind = "FILE_SEEK";
+	t.trunc = trunc;
+	for (int i = 0; i < 40; ++i) { Op n; n.kind = "next"; t.ops.push_back(n); }
+	DriveOpts o;
+	o.stop_at_null = true;
+	o.budget = 100000 + 64 * arch.size();
+	bool tr = g_sim.tracing;
+	g_sim.tracing = false;
+	DriveOut d = drive_reader(t, arch, o);
+	g_sim.tracing = tr;
+	for (auto &ob : d.obs) if (!ob.hdr.null && ob.hdr.length > (4u << 20)) return true;
+	return false;
 }
